@@ -86,6 +86,10 @@ def corpus(tier):
         s2.features = {k: v for k, v in s.features.items() if not k.startswith('_') or k == '_sockbuf'}
         s2.features['origin_check'] = s.name.split('/')[0]
         s2.kinds = ('ARS' if 'D' not in s.kinds else 'D') if s.features.get('role') != 'tls_front' else 'A'
+        if s.features.get('class') == 'big' or 'big' in s.name.split('/'):
+            # the full-size transfer has ~300 alternatives per execution and each execution moves 200 KiB:
+            # d <= 2 on it is C01's job (one mode); the three-mode differential keeps it at d <= 1
+            s2.features['_bound'] = 1
         uniq.setdefault(s.name, s2)
     return list(uniq.values())
 
